@@ -635,7 +635,7 @@ def _normalisation(cx, init, make, tables):
     # static conditions: text is the given string, nothing bound
     env = {"field_name": C(None), "op": C("a.id = b.id"), "value": C(None)}
     for o in it.run(init.body, env):
-        if o.how != "fall":
+        if o.how != "fall" and not (o.how == "return" and isinstance(o.value, C) and o.value.v is None):       # an early bare `return` is a normal end
             cx.ob("R15e", init, False, f"static condition ends with {o.how} {o.value}", stmt="static condition")
             continue
         env2 = {"self.field_name": C(None), "self.op": o.env["self.op"], "self.value": C(None), "values_list": K("list", None, "vl"), "placeholders_type": C(0)}
